@@ -152,8 +152,8 @@ type Disk struct {
 	stickyKind  string
 	stickyAfter int
 	stickyOn    bool
-	onCrash func(reason string) // called (in a new goroutine) after a fault-triggered crash
-	Taken   []string            // crash/error points actually taken: "kind/when"
+	onCrash     func(reason string) // called (in a new goroutine) after a fault-triggered crash
+	Taken       []string            // crash/error points actually taken: "kind/when"
 }
 
 func NewDisk(w *World, name string, fl Flavor) *Disk {
